@@ -21,8 +21,8 @@ import time
 
 import z3
 
-MAX_TERMS = 40
-MAX_INST = 4000
+MAX_TERMS = 60
+MAX_INST = 12000
 
 
 def split_and(e, out=None):
@@ -138,8 +138,97 @@ def index_terms(formulas, acc, seen):
             stack.extend(t.children())
 
 
-def prepare(hyps, goal, extra_terms=()):
-    """returns (ground_hyps, quant_hyps, instances, neg_goal)"""
+def guard_terms(q, acc):
+    """ground terms that bound the quantified variable(s) in the guard of a
+    bounded forall:  ForAll k. (lo <= k /\ k < hi) -> ...   gives lo, hi, hi-1"""
+    body = q.body()
+    if not z3.is_implies(body):
+        return
+    guard = body.arg(0)
+    for c in split_and(guard):
+        if z3.is_app(c) and c.num_args() == 2 and c.decl().kind() in (z3.Z3_OP_LE, z3.Z3_OP_LT, z3.Z3_OP_GE, z3.Z3_OP_GT):
+            a, b = c.arg(0), c.arg(1)
+            for x, y in ((a, b), (b, a)):
+                if z3.is_var(x) and z3.is_int(y) and not has_var(y):
+                    for t in (y, z3.simplify(y - 1), z3.simplify(y + 1)):
+                        acc.setdefault(t.get_id(), t)
+
+
+def _decompose(arg, nv):
+    """arg == Var(i) + ground  ->  (i, ground_offset or None)"""
+    if z3.is_var(arg):
+        return z3.get_var_index(arg), None
+    if z3.is_app(arg) and z3.is_int(arg):
+        k = arg.decl().kind()
+        if k == z3.Z3_OP_ADD:
+            vs = [c for c in arg.children() if z3.is_var(c)]
+            rest = [c for c in arg.children() if not z3.is_var(c)]
+            if len(vs) == 1 and all(not has_var(c) for c in rest):
+                off = rest[0]
+                for c in rest[1:]:
+                    off = off + c
+                return z3.get_var_index(vs[0]), off
+        if k == z3.Z3_OP_SUB and arg.num_args() == 2 and z3.is_var(arg.arg(0)) and not has_var(arg.arg(1)):
+            return z3.get_var_index(arg.arg(0)), -arg.arg(1)
+    return None
+
+
+def var_patterns(q):
+    """for each bound variable: [(decl, argpos, offset)] occurrences as function arguments"""
+    nv = q.num_vars()
+    pats = {i: [] for i in range(nv)}
+    seen = set()
+    stack = [q.body()]
+    while stack:
+        t = stack.pop()
+        i = t.get_id()
+        if i in seen:
+            continue
+        seen.add(i)
+        if z3.is_quantifier(t):
+            # nested quantifier: its body refers to outer vars with shifted indices; skip (handled after outer instantiation)
+            continue
+        if z3.is_app(t):
+            d = t.decl()
+            if d.kind() == z3.Z3_OP_UNINTERPRETED and t.num_args() > 0:
+                for pos, a in enumerate(t.children()):
+                    dec = _decompose(a, nv)
+                    if dec is not None and dec[0] < nv:
+                        pats[dec[0]].append((d, pos, dec[1]))
+            stack.extend(t.children())
+    return pats
+
+
+def ground_apps(formulas, acc, seen):
+    """decl name -> {argpos -> {id: ground int arg}}"""
+    stack = list(formulas)
+    while stack:
+        t = stack.pop()
+        i = t.get_id()
+        if i in seen:
+            continue
+        seen.add(i)
+        if z3.is_quantifier(t):
+            stack.append(t.body())
+            continue
+        if z3.is_app(t):
+            d = t.decl()
+            if d.kind() == z3.Z3_OP_UNINTERPRETED and t.num_args() > 0:
+                for pos, a in enumerate(t.children()):
+                    if z3.is_int(a) and not has_var(a):
+                        acc.setdefault((d.name(), pos), {}).setdefault(a.get_id(), a)
+            stack.extend(t.children())
+
+
+_INST_CACHE = {}
+_CLASS_CACHE = {}
+
+
+def classify(hyps):
+    key = tuple(h.get_id() for h in hyps)
+    r = _CLASS_CACHE.get(key)
+    if r is not None:
+        return r
     ground, quants = [], []
     for h in hyps:
         for c in split_and(h):
@@ -149,79 +238,188 @@ def prepare(hyps, goal, extra_terms=()):
                 quants.append(c)  # nested / existential: left to the solver
             else:
                 ground.append(c)
-    neg = z3.Not(goal)
-    terms = {}
-    seen = set()
-    index_terms(ground + [neg], terms, seen)
-    for t in extra_terms:
-        terms.setdefault(t.get_id(), t)
-    # skolem constants of the goal
-    stack = [neg]
-    sseen = set()
-    while stack:
-        t = stack.pop()
-        if t.get_id() in sseen:
-            continue
-        sseen.add(t.get_id())
-        if z3.is_const(t) and z3.is_int(t) and t.decl().kind() == z3.Z3_OP_UNINTERPRETED and str(t).startswith("sk!"):
-            terms.setdefault(t.get_id(), t)
-        stack.extend(t.children())
-    instances = []
-    done = set()
-    pending_quants = list(quants)
-    all_foralls = [q for q in quants if is_forall(q)]
-    for rnd in range(3):
-        base = list(terms.values())
-        cand = {}
-        for t in base:
-            cand.setdefault(t.get_id(), t)
-        if rnd == 0:
-            for t in base:
-                for d in (t + 1, t - 1):
-                    d = z3.simplify(d)
-                    cand.setdefault(d.get_id(), d)
-        cl = list(cand.values())[:MAX_TERMS]
+    _CLASS_CACHE[key] = (ground, quants)
+    if len(_CLASS_CACHE) > 64:
+        _CLASS_CACHE.pop(next(iter(_CLASS_CACHE)))
+    return ground, quants
+
+
+class Instantiator:
+    """Offset-aware E-matching, round by round.  A bound variable k occurring as
+    f(k + c) is instantiated with T - c for every ground application f(T) in
+    the query (z3's own E-matching does not match modulo arithmetic offsets),
+    plus the bounds of its guard.  Instantiation only weakens hypotheses: sound."""
+
+    def __init__(self, ground, quants, neg):
+        self.apps = {}
+        self.aseen = set()
+        ground_apps(ground + [neg], self.apps, self.aseen)
+        self.all_foralls = [q for q in quants if is_forall(q)]
+        self.seen_f = {q.get_id() for q in self.all_foralls}
+        self.done = set()
+        self.total = 0
+        self.finished = False
+
+    def round(self):
+        """returns the new ground instances of this round ([] when saturated)"""
+        if self.finished:
+            return []
         new_ground = []
         new_foralls = []
-        for q in all_foralls:
+        for q in list(self.all_foralls):
             nv = q.num_vars()
-            if nv > 2:
+            if nv > 2 or not all(q.var_sort(i) == z3.IntSort() for i in range(nv)):
                 continue
-            sorts_ok = all(q.var_sort(i) == z3.IntSort() for i in range(nv))
-            if not sorts_ok:
-                continue
-            combos = [(t,) for t in cl] if nv == 1 else list(itertools.product(cl[:24], repeat=2))
+            pats = _PAT_CACHE.get(q.get_id())
+            if pats is None:
+                bt = {}
+                guard_terms(q, bt)
+                pats = (var_patterns(q), bt)
+                _PAT_CACHE[q.get_id()] = pats
+                _KEEP.append(q)
+            pats, bt = pats
+            cands = []
+            for vi in range(nv):
+                cs = {}
+                for (d, pos, off) in pats[vi]:
+                    for T in self.apps.get((d.name(), pos), {}).values():
+                        t = T if off is None else z3.simplify(T - off)
+                        cs.setdefault(t.get_id(), t)
+                if nv == 1 or not cs:
+                    for t in bt.values():
+                        cs.setdefault(t.get_id(), t)
+                cands.append(list(cs.values()))
+            if nv == 1:
+                combos = [(t,) for t in cands[0]]
+            else:
+                def pick(xs):
+                    return xs if len(xs) <= 24 else xs[:8] + xs[-16:]
+                combos = [(a, b) for a in pick(cands[0]) for b in pick(cands[1])]
             for combo in combos:
                 key = (q.get_id(),) + tuple(t.get_id() for t in combo)
-                if key in done:
+                if key in self.done:
                     continue
-                done.add(key)
-                if len(done) > MAX_INST:
+                self.done.add(key)
+                self.total += 1
+                if self.total > MAX_INST:
                     break
-                inst = z3.substitute_vars(q.body(), *reversed(combo))
-                for c in split_and(z3.simplify(inst)):
-                    if z3.is_true(c):
-                        continue
+                parts = _INST_CACHE.get(key)
+                if parts is None:
+                    inst = z3.substitute_vars(q.body(), *combo)
+                    parts = [c for c in split_and(z3.simplify(inst)) if not z3.is_true(c)]
+                    _INST_CACHE[key] = parts
+                    _KEEP.append(q)
+                    _KEEP.extend(combo)
+                for c in parts:
                     if is_forall(c):
                         new_foralls.append(c)
                     elif has_quant(c):
-                        # e.g. guard -> forall: keep as a (conditional) quantified hyp
-                        pass  # dropped from the instantiated query (sound); still in the full query
+                        if z3.is_or(c) or z3.is_implies(c):
+                            cf = _CF_CACHE.get(c.get_id())
+                            if cf is None:
+                                cf = _cond_foralls(c)
+                                _CF_CACHE[c.get_id()] = cf
+                                _KEEP.append(c)
+                            new_foralls.extend(cf)
                     else:
                         new_ground.append(c)
-        instances.extend(new_ground)
-        seen_f = {q.get_id() for q in all_foralls}
-        for q in new_foralls:
-            if q.get_id() not in seen_f:
-                all_foralls.append(q)
-                seen_f.add(q.get_id())
-        before = len(terms)
-        index_terms(new_ground, terms, seen)
-        if len(terms) == before and not new_foralls:
+            if self.total > MAX_INST:
+                break
+        added = False
+        for qn in new_foralls:
+            if qn.get_id() not in self.seen_f:
+                self.all_foralls.append(qn)
+                self.seen_f.add(qn.get_id())
+                added = True
+        before = sum(len(v) for v in self.apps.values())
+        ground_apps(new_ground, self.apps, self.aseen)
+        after = sum(len(v) for v in self.apps.values())
+        if (after == before and not added) or self.total > MAX_INST:
+            self.finished = True
+        return new_ground
+
+
+_PAT_CACHE = {}
+_CF_CACHE = {}
+
+
+def prepare(hyps, goal, extra_terms=(), rounds=6):
+    """(ground_hyps, quant_hyps, instances, neg_goal): all rounds at once"""
+    ground, quants = classify(hyps)
+    neg = z3.Not(goal)
+    ins = Instantiator(ground, quants, neg)
+    instances = []
+    for _ in range(rounds):
+        new = ins.round()
+        instances.extend(new)
+        if ins.finished:
             break
-        if len(done) > MAX_INST:
-            break
+    try:
+        instances = instances + product_hints(ground + instances + [neg])
+    except Exception:
+        pass
     return ground, quants, instances, neg
+
+
+def _cond_foralls(c):
+    """(not G) or Forall...  with ground G: the quantifier guarded by G is turned into
+    Forall x. G -> body  (equivalent), so that it can be instantiated"""
+    out = []
+    if z3.is_or(c):
+        qs = [x for x in c.children() if is_forall(x)]
+        rest = [x for x in c.children() if not is_forall(x)]
+        if len(qs) == 1 and all(not has_quant(x) for x in rest):
+            q = qs[0]
+            vs = [z3.Const(f"cq!{q.var_name(i)}!{next(_sk)}", q.var_sort(i)) for i in range(q.num_vars())]
+            body = z3.substitute_vars(q.body(), *reversed(vs))
+            out.append(z3.ForAll(vs, z3.Or(*(rest + [body]))))
+    return out
+
+
+def product_hints(formulas):
+    """sound nonlinear hints: for products x*b, y*b sharing a factor b that occur in
+    the query, multiplication by a positive common factor is strictly monotone;
+    for divisions a div b (b > 0): b*(a div b) <= a < b*(a div b) + b"""
+    prods = {}
+    divs = {}
+    seen = set()
+    stack = list(formulas)
+    while stack:
+        t = stack.pop()
+        i = t.get_id()
+        if i in seen:
+            continue
+        seen.add(i)
+        if z3.is_quantifier(t):
+            continue
+        if z3.is_app(t):
+            k = t.decl().kind()
+            if k == z3.Z3_OP_MUL and t.num_args() == 2 and z3.is_int(t):
+                a, b = t.arg(0), t.arg(1)
+                if not z3.is_int_value(a) and not z3.is_int_value(b) and not has_var(t):
+                    prods.setdefault(b.get_id(), (b, {}))[1][a.get_id()] = (a, t)
+                    prods.setdefault(a.get_id(), (a, {}))[1][b.get_id()] = (b, t)
+            elif k == z3.Z3_OP_IDIV and not has_var(t):
+                a, b = t.arg(0), t.arg(1)
+                if not z3.is_int_value(b):
+                    divs[t.get_id()] = (a, b, t)
+            stack.extend(t.children())
+    hints = []
+    for a, b, t in list(divs.values())[:12]:
+        hints.append(z3.Implies(b > 0, z3.And(b * t <= a, a < b * t + b)))
+        prods.setdefault(b.get_id(), (b, {}))[1][t.get_id()] = (t, b * t)
+    for bid, (b, xs) in prods.items():
+        items = list(xs.values())[:8]
+        if len(items) < 2:
+            continue
+        for i in range(len(items)):
+            for j in range(len(items)):
+                if i == j:
+                    continue
+                (x, px), (y, py) = items[i], items[j]
+                hints.append(z3.Implies(b > 0, z3.And(z3.Implies(x < y, px < py), z3.Implies(x <= y, px <= py),
+                                                      z3.Implies(x < y, px + b <= py))))
+    return hints
 
 
 def to_smt2(assertions):
@@ -277,82 +475,121 @@ def _run_cvc5(smt2, timeout_ms, strings=False):
         os.unlink(fn)
 
 
-def solve_job(job):
-    """worker: job = dict(name, smt_a, smt_b, timeout_ms, expect_sat, strings)
-    returns dict(name, status, backend, seconds, model, detail)"""
-    name = job["name"]
-    t_ms = job["timeout_ms"]
-    total = 0.0
+def _model_text(s):
     try:
-        if job.get("expect_sat"):
-            # cover obligation (vacuity guard): the conjunction must be satisfiable.
-            # Decided on the instantiated query: unsat there => unsat (sound);
-            # sat there is taken as covered (quantified facts only instantiated).
-            res, dt, model, why = _run_z3(job["smt_a"], min(t_ms, 10000))
-            total += dt
-            if res == "sat":
-                return dict(name=name, status="covered", backend="z3/inst", seconds=total, model=None, detail="")
-            if res == "unsat":
-                return dict(name=name, status="uncovered", backend="z3/inst", seconds=total, model=None, detail="")
-            return dict(name=name, status="cover-unknown", backend="z3", seconds=total, model=None, detail=why)
-        cand = None
-        if job["smt_a"] is not None:
-            res, dt, model, why = _run_z3(job["smt_a"], t_ms)
-            total += dt
-            if res == "unsat":
-                return dict(name=name, status="proved", backend="z3/inst", seconds=total, model=None, detail="")
-            if res == "sat":
-                cand = model
-                if not job["has_quant"]:
-                    return dict(name=name, status="refuted", backend="z3", seconds=total, model=model, detail="")
-        res, dt, model, why = _run_z3(job["smt_b"], t_ms)
-        total += dt
-        if res == "unsat":
-            return dict(name=name, status="proved", backend="z3/full", seconds=total, model=None, detail="")
-        if res == "sat":
-            return dict(name=name, status="refuted", backend="z3/full", seconds=total, model=model, detail="")
-        # z3 unknown -> cvc5
-        res3, dt3, _, why3 = _run_cvc5(job["smt_b"], t_ms, job.get("strings", False))
-        total += dt3
-        if res3 == "unsat":
-            return dict(name=name, status="proved", backend="cvc5", seconds=total, model=None, detail="")
-        if res3 == "sat":
-            return dict(name=name, status="refuted", backend="cvc5", seconds=total, model=cand, detail="model from z3 instantiated query" if cand else "")
-        # second z3 attempt with another seed
-        res4, dt4, model4, why4 = _run_z3(job["smt_b"], t_ms, seed=17)
-        total += dt4
-        if res4 == "unsat":
-            return dict(name=name, status="proved", backend="z3/full/seed17", seconds=total, model=None, detail="")
-        if res4 == "sat":
-            return dict(name=name, status="refuted", backend="z3/full/seed17", seconds=total, model=model4, detail="")
-        return dict(name=name, status="unknown", backend="z3+cvc5", seconds=total, model=cand,
-                    detail=f"z3: {why}; cvc5: {why3}; candidate-model={'yes' if cand else 'no'}")
-    except Exception as e:  # checker error, not a verdict
-        return dict(name=name, status="error", backend="-", seconds=total, model=None, detail=f"{type(e).__name__}: {e}")
+        return s.model().sexpr()
+    except Exception:
+        return None
 
 
-def make_jobs(obl, timeout_ms):
-    """one Obligation -> list of jobs (goal conjuncts are separate jobs)"""
-    jobs = []
-    if obl.expect_sat:
-        ground, quants, instances, _ = prepare(obl.hyps, z3.BoolVal(False))
-        smt_b = to_smt2(list(obl.hyps) + [obl.goal])
-        smt_a = to_smt2(ground + instances + [obl.goal])
-        jobs.append(dict(name=obl.name, smt_a=smt_a, smt_b=smt_b, timeout_ms=timeout_ms, expect_sat=True,
-                         has_quant=bool(quants), path=obl.path_id))
-        return jobs
-    parts = strip_goal(obl.goal)
-    for i, (extra, g) in enumerate(parts):
-        hyps = list(obl.hyps) + list(extra)
-        ground, quants, instances, neg = prepare(hyps, g)
-        hq = bool(quants) or has_quant(neg)
-        smt_a = to_smt2(ground + instances + [neg]) if hq else to_smt2(ground + [neg])
-        smt_b = to_smt2(hyps + [neg]) if hq else smt_a
-        nm = obl.name if len(parts) == 1 else f"{obl.name}/{i}"
-        strings = "String" in smt_b
-        jobs.append(dict(name=nm, smt_a=smt_a, smt_b=smt_b, timeout_ms=timeout_ms, expect_sat=False,
-                         has_quant=hq, path=obl.path_id, strings=strings))
-    return jobs
+def prove_part(hyps, g, t_ms, name):
+    """prove  hyps ==> g  (g without top-level conjunction/forall): incremental
+    instantiation rounds on one solver, then the full quantified query, then cvc5"""
+    t0 = time.time()
+    ground, quants = classify(hyps)
+    neg = z3.Not(g)
+    hq = bool(quants) or has_quant(neg)
+    s = z3.Solver()
+    for h in ground:
+        s.add(h)
+    s.add(neg)
+    hints_done = set()
+
+    def add_hints(fs):
+        for h in product_hints(fs):
+            if h.get_id() not in hints_done:
+                hints_done.add(h.get_id())
+                s.add(h)
+    add_hints(ground + [neg])
+    s.set("timeout", int(min(t_ms, 4000) if hq else t_ms))
+    r = s.check()
+    if r == z3.unsat:
+        return dict(status="proved", backend="z3/ground" if hq else "z3", seconds=time.time() - t0, model=None, detail="")
+    if r == z3.sat and not hq:
+        return dict(status="refuted", backend="z3", seconds=time.time() - t0, model=_model_text(s), detail="")
+    if not hq:
+        r3, dt3, _, why3 = _run_cvc5(to_smt2(ground + [neg]), t_ms, "String" in str(neg.sort()))
+        if r3 == "unsat":
+            return dict(status="proved", backend="cvc5", seconds=time.time() - t0, model=None, detail="")
+        if r3 == "sat":
+            return dict(status="refuted", backend="cvc5", seconds=time.time() - t0, model=None, detail="")
+        return dict(status="unknown", backend="z3+cvc5", seconds=time.time() - t0, model=None,
+                    detail=f"z3: {s.reason_unknown()}; cvc5: {why3}")
+    cand = _model_text(s) if r == z3.sat else None
+    ins = Instantiator(ground, quants, neg)
+    all_inst = []
+    for rnd in range(7):
+        new = ins.round()
+        if new:
+            all_inst.extend(new)
+            for c in new:
+                s.add(c)
+            add_hints(new)
+            s.set("timeout", int(min(t_ms, 3000 + 2000 * rnd)))
+            r = s.check()
+            if r == z3.unsat:
+                return dict(status="proved", backend=f"z3/inst", seconds=time.time() - t0, model=None,
+                            detail=f"rounds={rnd + 1} instances={len(all_inst)}")
+            if r == z3.sat:
+                cand = _model_text(s)
+        if ins.finished:
+            break
+    # full query: every quantified hypothesis present
+    full = z3.Solver()
+    for h in hyps:
+        full.add(h)
+    for h in product_hints(ground + [neg]):
+        full.add(h)
+    full.add(neg)
+    full.set("timeout", int(t_ms))
+    r = full.check()
+    if r == z3.unsat:
+        return dict(status="proved", backend="z3/full", seconds=time.time() - t0, model=None, detail="")
+    if r == z3.sat:
+        return dict(status="refuted", backend="z3/full", seconds=time.time() - t0, model=_model_text(full), detail="")
+    why = full.reason_unknown()
+    smt_b = full.to_smt2()
+    r3, dt3, _, why3 = _run_cvc5(smt_b, t_ms, "String" in smt_b)
+    if r3 == "unsat":
+        return dict(status="proved", backend="cvc5", seconds=time.time() - t0, model=None, detail="")
+    if r3 == "sat":
+        return dict(status="refuted", backend="cvc5", seconds=time.time() - t0, model=cand,
+                    detail="model from z3 instantiated query" if cand else "")
+    # instantiated query with the whole budget, then another seed on the full query
+    s.set("timeout", int(t_ms))
+    s.set("random_seed", 5)
+    r = s.check()
+    if r == z3.unsat:
+        return dict(status="proved", backend="z3/inst/long", seconds=time.time() - t0, model=None, detail="")
+    full.set("random_seed", 17)
+    r = full.check()
+    if r == z3.unsat:
+        return dict(status="proved", backend="z3/full/seed17", seconds=time.time() - t0, model=None, detail="")
+    if r == z3.sat:
+        return dict(status="refuted", backend="z3/full/seed17", seconds=time.time() - t0, model=_model_text(full), detail="")
+    return dict(status="unknown", backend="z3+cvc5", seconds=time.time() - t0, model=cand,
+                detail=f"z3: {why}; cvc5: {why3}; candidate-model={'yes' if cand else 'no'}")
+
+
+def cover_part(hyps, goal, t_ms):
+    """cover obligation (vacuity guard): hyps /\ goal must be satisfiable.  Decided on the
+    instantiated query: unsat there => unsat (sound); sat there is taken as covered."""
+    t0 = time.time()
+    ground, quants = classify(hyps)
+    s = z3.Solver()
+    for h in ground:
+        s.add(h)
+    s.add(goal)
+    ins = Instantiator(ground, quants, goal)
+    for rnd in range(3):
+        for c in ins.round():
+            s.add(c)
+        if ins.finished:
+            break
+    s.set("timeout", int(min(t_ms, 10000)))
+    r = s.check()
+    st = {z3.sat: "covered", z3.unsat: "uncovered"}.get(r, "cover-unknown")
+    return dict(status=st, backend="z3/inst", seconds=time.time() - t0, model=None, detail="")
 
 
 _OBLS = []
@@ -363,20 +600,21 @@ def _work(i):
     o = _OBLS[i]
     out = []
     try:
-        jobs = make_jobs(o, _TIMEOUT[0])
+        if o.expect_sat:
+            r = cover_part(o.hyps, o.goal, _TIMEOUT[0])
+            r.update(name=o.name, path=o.path_id, lineno=o.lineno, note=o.note, smt_b="")
+            return [r]
+        parts = strip_goal(o.goal)
+        for k, (extra, g) in enumerate(parts):
+            nm = o.name if len(parts) == 1 else f"{o.name}/{k}"
+            r = prove_part(list(o.hyps) + list(extra), g, _TIMEOUT[0], nm)
+            r.update(name=nm, path=o.path_id, lineno=o.lineno, note=o.note, smt_b="")
+            out.append(r)
     except Exception as e:
-        return [dict(name=o.name, status="error", backend="-", seconds=0.0, model=None,
-                     detail=f"prepare: {type(e).__name__}: {e}", path=o.path_id, lineno=o.lineno,
-                     note=o.note, smt_b="")]
-    for j in jobs:
-        r = solve_job(j)
-        r["name"] = j["name"]
-        r["path"] = j["path"]
-        r["lineno"] = o.lineno
-        r["note"] = o.note
-        r["smt_b"] = j["smt_b"] if r["status"] not in ("proved", "covered") else ""
-        r["smt_size"] = len(j["smt_b"])
-        out.append(r)
+        import traceback
+        out.append(dict(name=o.name, status="error", backend="-", seconds=0.0, model=None,
+                        detail=f"{type(e).__name__}: {e} {traceback.format_exc(limit=3)}", path=o.path_id,
+                        lineno=o.lineno, note=o.note, smt_b=""))
     return out
 
 
@@ -396,8 +634,14 @@ def solve_all(obls, timeout_ms=30000, workers=8, progress=None):
     if workers <= 1 or len(order) <= 1:
         outs = [_work(i) for i in range(len(order))]
     else:
-        with mp.get_context("fork").Pool(min(workers, len(order))) as pool:
-            outs = pool.map(_work, range(len(order)), chunksize=1)
+        idx = sorted(range(len(order)), key=lambda i: (order[i].func, order[i].path_id))
+        nw = min(workers, len(order))
+        cs = max(1, min(8, len(order) // (nw * 3)))
+        with mp.get_context("fork").Pool(nw) as pool:
+            outs_sorted = pool.map(_work, idx, chunksize=cs)
+        outs = [None] * len(order)
+        for i, r in zip(idx, outs_sorted):
+            outs[i] = r
     final = []
     for o in obls:
         key = (tuple(h.get_id() for h in o.hyps), o.goal.get_id(), o.expect_sat)
